@@ -161,6 +161,17 @@ Theorem C17_delete_function : forall f c s q,
   = if existsb (Nat.eqb q) (sources c) then plain_delete_function (sget s q) f else sget s q.
 Proof. exact delete_function_sget. Qed.
 
+(* register_function(f, exclusive) through any context writes into the FIRST plain context of its own layer only:
+   f joins that context's definitions (once), the exclusive mark of f's name is added iff asked for, variables and
+   every other plain context are untouched *)
+Theorem C17_register : forall s c f ex, wfo c -> Forall (fun p => p < length s) (sources c) ->
+  exists p r, sources c = p :: r
+    /\ (forall q, q <> p -> sget (fst (register s c f ex)) q = sget s q)
+    /\ pdata (sget (fst (register s c f ex)) p) = pdata (sget s p)
+    /\ (forall g, In g (pfuncs (sget (fst (register s c f ex)) p)) <-> g = f \/ In g (pfuncs (sget s p)))
+    /\ (forall k, In k (pexcl (sget (fst (register s c f ex)) p)) <-> (ex = true /\ k = fst f) \/ In k (pexcl (sget s p))).
+Proof. exact register_spec. Qed.
+
 (* the premise of C17_child_shadow holds for every context of every reachable state *)
 Theorem C17_history_good : forall ops,
   Forall (good (length (st (run_state init_state ops)))) (env (run_state init_state ops)).
@@ -185,6 +196,7 @@ Proof. vm_compute. repeat split. Qed.
 
 Print Assumptions C17_child_transparent.
 Print Assumptions C17_child_shadow.
+Print Assumptions C17_register.
 Print Assumptions C17_delete_function.
 Print Assumptions C17_child_register.
 Print Assumptions C17_child_transparent_functions.
